@@ -62,6 +62,13 @@ func (ms *metaStore) metaPath(bucket string, object string) metaPath {
 	object = strings.Replace(object, "/", "_", -1)
 	object = strings.Replace(object, "\\", "_", -1)
 
+	// The flattened key only keeps the file names readable; the hash makes them
+	// unique. File names are limited to 255 bytes on most filesystems, which a
+	// key (up to 1024 bytes) easily exceeds even when no segment of it does:
+	if len(object) > 200 {
+		object = object[:200]
+	}
+
 	return metaPath{bucket, object + "-" + hex.EncodeToString(h.Sum(nil))}
 }
 
